@@ -171,6 +171,44 @@ func genC03(g *Gen) error {
 		return err
 	}
 	g.P("def levelMinGroupFiles : String := %s", leanStr(v))
+
+	// ---- column-store compaction: who publishes the new files, and when (model: OG.C03.ColStore)
+	g.P("")
+	renames := []string{"RenameTmpFiles", "RenameTmpFilesWithPKIndex"}
+	csSeqs := []struct {
+		rel, fn, lean string
+		vocab        []string
+	}{
+		{dir + "cs_mms_tables.go", "csImmTableImpl.ReplaceFiles", "calls_csReplaceFiles", append([]string{"writeCompactedFileInfo", "RenameIndexFiles", "deleteFiles", "Remove"}, renames...)},
+		{dir + "table.go", "WriteIntoFile", "calls_WriteIntoFile", append([]string{"NewTSSPFile", "RenameTmpFullTextIdxFile"}, renames...)},
+		{dir + "colstore_compact.go", "IteratorByRow.Flush", "calls_csFlushByRow", []string{"WriteIntoFile", "AddTSSPFiles", "ReplaceFiles"}},
+		{dir + "colstore_compact.go", "IteratorByBlock.Flush", "calls_csFlushByBlock", []string{"WriteIntoFile", "AddTSSPFiles", "ReplaceFiles"}},
+		{dir + "cs_mms_tables.go", "csImmTableImpl.compactToLevel", "calls_csCompactToLevel", []string{"compact", "ReplaceFiles"}},
+	}
+	got := map[string][]string{}
+	for _, sq := range csSeqs {
+		fd, err := g.Func(sq.rel, sq.fn)
+		if err != nil {
+			return err
+		}
+		got[sq.lean] = c03Calls(g, fd.Body, sq.vocab)
+		g.StrList(sq.lean, got[sq.lean])
+	}
+	has := func(xs []string, ys ...string) bool {
+		for _, x := range xs {
+			for _, y := range ys {
+				if x == y {
+					return true
+				}
+			}
+		}
+		return false
+	}
+	publishes := has(got["calls_WriteIntoFile"], renames...) && has(got["calls_csFlushByRow"], "WriteIntoFile") &&
+		has(got["calls_csFlushByBlock"], "WriteIntoFile") && !has(got["calls_csReplaceFiles"], renames...)
+	g.P("/-- column-store compaction renames its new files to their final names while it writes them")
+	g.P("(WriteIntoFile), i.e. before csImmTableImpl.ReplaceFiles writes the compact log. -/")
+	g.P("def csCompactPublishesBeforeLog : Bool := %v", publishes)
 	g.Footer()
 	return nil
 }
